@@ -146,14 +146,15 @@ package join
 //@   requires [C03 C16] gInN - len(item) >= gDelivPos && (forall j :: 0 <= j && j < len(item) ==> item[j] == gIn[gInN - len(item) + j])
 //@   requires [C09] dsc.opts.Timeout <= 0 ==> (len(item) == dsc.opts.JoinSize || gClosed || gStop)
 //@   requires [C09] (len(item) < dsc.opts.JoinSize && !gClosed && !gStop) ==> gClock - gLastDeliv >= dsc.opts.Timeout
+//@   requires [C09] gLastDeliv <= gClock
 //@   requires [C08] OWN(dsc)
 //@   requires [C08] item.arr == dsc.join.arr
 //@   requires [C16] !gOutClosed
-//@   modifies dsc.unreleased, gOutN, gDelivPos, gLastDeliv, gLent, gOwned, gStop
+//@   modifies dsc.unreleased, gOutN, gDelivPos, gLastDeliv, gLent, gOwned, gStop, gClock
 //@   ensures [C03] gStop || gOutN == old(gOutN) + len(item)
 //@   ensures [C03 C16] gOutN >= old(gOutN) && gDelivPos <= gInN && gDelivPos >= old(gDelivPos)
 //@   ensures [* C03 C08 C09 C16] old(gStop) ==> gStop
-//@   ensures [C09] gLastDeliv == gClock || gLastDeliv == old(gLastDeliv)
+//@   ensures [C09] gLastDeliv <= gClock && gClock >= old(gClock)
 //@   ensures [C08] OWN(dsc)
 //@   ensures [* C10] dsc.unreleased ==> gStop
 
